@@ -3,6 +3,8 @@
 #include "sim.h"
 #include "igzip_lib.h"
 
+uint32_t level_buf_size_for(int level, int cls, uint32_t extra); // sess_deflate.cc
+
 namespace
 {
 struct HdrSession {
@@ -236,6 +238,96 @@ struct HdrSession {
                                 return;
                         }
                 }
+        }
+
+        // The wrapper header the codec writes itself (isal_deflate / isal_deflate_stateless with gzip_flag IGZIP_GZIP / IGZIP_ZLIB): the
+        // same RFC byte layout, for every level and window size, whether it goes out in one piece or byte by byte.
+        void codec_header()
+        {
+                const Json &c = plan.at("codec");
+                int level = (int) ((uint64_t) c.geti("level") % 4), hbv = (int) ((uint64_t) c.geti("hb") % 16), api = (int) (c.geti("api") & 1);
+                int hb = hbv < 9 ? 0 : hbv;
+                bool zl = c.geti("zlib") != 0;
+                Json ds = Json::obj();
+                ds.set("k", c.geti("k")).set("n", (uint64_t) c.geti("n") % 3000).set("s", c.geti("s")).set("p", 300 + (uint64_t) c.geti("s") % 1300);
+                std::vector<uint8_t> data = make_data(ds);
+                if (data.size() > 4000)
+                        data.resize(4000);
+                Slot *ss = g_arena.alloc(sizeof(struct isal_zstream), PLACE_END, "zstream", fill + 1, 16);
+                Slot *sl = g_arena.alloc(level_buf_size_for(level, (int) c.geti("lbc"), 0), PLACE_END, "level_buf", fill + 2, 16);
+                Slot *si = g_arena.alloc(data.size(), place ? PLACE_START : PLACE_END, "src", 0, 1);
+                if (!ss || !sl || !si)
+                        return;
+                memcpy(si->data, data.data(), data.size());
+                struct isal_zstream *st = (struct isal_zstream *) ss->data;
+                api ? isal_deflate_init(st) : isal_deflate_stateless_init(st);
+                st->level = level;
+                st->level_buf = sl->data;
+                st->level_buf_size = (uint32_t) sl->len;
+                st->gzip_flag = zl ? IGZIP_ZLIB : IGZIP_GZIP;
+                st->hist_bits = hb;
+                st->end_of_stream = 1;
+                st->flush = NO_FLUSH;
+                st->next_in = si->data;
+                st->avail_in = (uint32_t) data.size();
+                std::vector<uint8_t> got;
+                const Json &sp = plan.at("splits");
+                size_t cap = data.size() + data.size() / 8 + 600;
+                for (unsigned call = 0; call < 5000; call++) {
+                        size_t ao = api == 0 ? cap : call < sp.a.size() ? (size_t) (1 + (uint64_t) sp.ai(call) % 3000) : cap;
+                        Slot *so = g_arena.alloc(ao, (plan.geti("oplace") & 1) ? PLACE_START : PLACE_END, "out_chunk", fill + 3 + call, 1);
+                        if (!so)
+                                return;
+                        st->next_out = so->data;
+                        st->avail_out = (uint32_t) ao;
+                        int ret = 0;
+                        h.calls++;
+                        if (GUARDED(gc, ret = api ? isal_deflate(st) : isal_deflate_stateless(st))) {
+                                report_fault(rr, h, gc.fi, api ? "isal_deflate (wrapper header)" : "isal_deflate_stateless (wrapper header)");
+                                return;
+                        }
+                        size_t produced = ao - std::min<size_t>(ao, st->avail_out);
+                        got.insert(got.end(), so->data, so->data + produced);
+                        h.rec("codec", { (int64_t) call, (int64_t) ao, ret, (int64_t) produced });
+                        if (!g_arena.canary_ok(so) || !g_arena.canary_ok(ss) || !g_arena.canary_ok(sl)) {
+                                rr.fail("C05.canary", "compression call changed bytes outside its declared buffers");
+                                return;
+                        }
+                        g_arena.release(so);
+                        if (ret != COMP_OK)
+                                return; // refusals and overflows are C07's and C10's subject
+                        if (api == 0 || st->internal_state.state == ZSTATE_END)
+                                break;
+                }
+                h.sigmix(((uint64_t) level << 8) ^ ((uint64_t) hb << 12) ^ (zl ? 1 : 0) ^ (api ? 2 : 0) ^ 0x66000);
+                size_t hl = zl ? 2 : 10;
+                if (got.size() < hl)
+                        return;
+                std::vector<uint8_t> want;
+                if (zl) {
+                        want = ref_zlib_header((unsigned) (eff_hist_bits(hb) - 8), level == 0 ? 0u : 1u, false, 0);
+                        // FLEVEL is informational (RFC 1950: "not needed for decompression") and any correct FCHECK is right
+                        if (got[0] == want[0] && (got[1] & 0x20) == 0 && ((unsigned) got[0] * 256 + got[1]) % 31 == 0)
+                                want[1] = got[1];
+                } else {
+                        GzFields f;
+                        f.xfl = got[8]; // XFL and OS carry no layout obligation
+                        f.os = got[9];
+                        want = ref_gzip_header(f);
+                }
+                if (want.size() != hl || memcmp(got.data(), want.data(), hl)) {
+                        size_t k = 0;
+                        while (k < hl && k < want.size() && got[k] == want[k])
+                                k++;
+                        rr.fail("C19.codec_header", strf("%s header written by %s (level %d, hist_bits %d) differs from the RFC layout at byte %zu: wrote %02x, reference %02x", zl ? "zlib" : "gzip", api ? "isal_deflate" : "isal_deflate_stateless", level, hb, k, got[k], k < want.size() ? want[k] : 0));
+                        return;
+                }
+                // the announced window has to cover what the body uses
+                RefInflate ref;
+                ref.init(zl ? RW_ZLIB : RW_GZIP);
+                if (ref.feed(got.data(), got.size()) == REF_DONE && zl && ref.max_dist > (1u << ((got[0] >> 4) + 8)))
+                        rr.fail("C19.codec_header", strf("zlib header announces a %u-byte window, the body uses distance %u", 1u << ((got[0] >> 4) + 8), ref.max_dist));
+                COUNT("probe.codec_header_checked");
         }
 
         // ------------------------------------------------------------ readers
@@ -641,7 +733,9 @@ struct HdrSession {
                 const Json &m = plan.at("mem");
                 place = (int) (m.geti("place") & 1);
                 fill = (uint64_t) m.geti("fill");
-                int what = (int) ((uint64_t) plan.geti("what") % 6);
+                int what = (int) ((uint64_t) plan.geti("what") % 7);
+                if (what == 6)
+                        return codec_header();
                 if (what == 0)
                         return write_gzip();
                 if (what == 1)
@@ -706,7 +800,7 @@ static Json gen_hdr(Rng &r0, const std::string &focus, int tier)
         Rng r(r0.u64(), "hdr.plan");
         Json p = Json::obj();
         p.set("prof", "hdr").set("focus", focus);
-        static const int whats[] = { 0, 0, 1, 2, 2, 2, 2, 3, 3, 4, 5 };
+        static const int whats[] = { 0, 0, 1, 2, 2, 2, 2, 3, 3, 4, 5, 6 };
         int what = r.pick(whats);
         p.set("what", what);
         Json gz = Json::obj();
@@ -725,6 +819,9 @@ static Json gen_hdr(Rng &r0, const std::string &focus, int tier)
         Json zl = Json::obj();
         zl.set("info", (int) r.below(8)).set("level", (int) r.below(4)).set("fdict", (int) r.below(2)).set("dictid", r.chance(1, 2) ? 0x11223344u : r.chance(1, 2) ? r.pick(edge32) : r.u32());
         p.set("zl", zl);
+        Json cd = Json::obj();
+        cd.set("level", (int) r.below(4)).set("hb", (int) (r.chance(1, 4) ? 0 : 9 + r.below(7))).set("api", (int) r.below(2)).set("zlib", (int) r.chance(2, 3)).set("k", (int) r.below(DK_NKINDS)).set("n", (int) r.logsize(2999)).set("s", r.u64() >> 20).set("lbc", (int) r.below(5));
+        p.set("codec", cd);
         int64_t delta;
         uint64_t c = r.below(10);
         delta = c < 5 ? r.range(-12, 8) : c < 7 ? -(int64_t) r.logsize(70000) : (int64_t) r.logsize(300);
